@@ -76,6 +76,7 @@ ODS_FEATURES = {
     "repeated-cell": "table:number-columns-repeated=3 on a string cell (twin: three literal cells)",
     "repeated-row": "table:number-rows-repeated=2 on a data row (twin: two literal rows)",
     "empty-sheet": "a sheet without content (one repeated empty filler row, as LibreOffice writes it) among other sheets (twin: one string cell)",
+    "missing-picture-part": "three picture frames on one sheet, the middle one's picture part is not in the package (twin: all three are)",
     "sub-table": "a cell holding a sub-table (table:is-sub-table) with two rows (twin: the same two paragraphs directly in the cell)",
     "dde-link": "the cached table of a DDE link after the sheets (a table:table that is not a sheet) (twin: none)",
     "nan-cell": "a float cell with office:value=\"NaN\" (legal xsd:double) (twin: 0.5)",
@@ -119,13 +120,14 @@ def _meta(tk, exp, rng) -> str:
             '<meta:creation-date>2024-01-02T03:04:05</meta:creation-date><dc:date>2024-02-03T04:05:06</dc:date></office:meta></office:document-meta>')
 
 
-def _frame_image(rng, files, exp, idx, unit, x="1cm", y="1cm", reuse=None):
+def _frame_image(rng, files, exp, idx, unit, x="1cm", y="1cm", reuse=None, missing=False):
     im = reuse or _rand_image(rng, idx)
     # part names are case-sensitive and free-form: camera / scanner / Windows producers keep names such as PHOTO_1.PNG, Scan_2.Jpg
     ext = random.Random(f"odf-picture-name:{idx}:{im['sha'][:6]}").choice([im["ext"]] * 6 + [im["ext"].upper()] * 3 + [im["ext"].title()])
     name = f"Pictures/img{idx}{ext}" if reuse is None else reuse["name"]
     im["name"] = name
-    files[name] = im["data"]
+    if not missing:
+        files[name] = im["data"]
     # the frame's size in any of the ODF length units; the reported pixel size is that length at 96 dpi (quarter inches: exact in every unit)
     srng = random.Random(f"odf-frame-size:{idx}:{im['sha'][:6]}:{unit}")
     kw, kh = srng.randint(1, 12), srng.randint(1, 12)
@@ -134,7 +136,8 @@ def _frame_image(rng, files, exp, idx, unit, x="1cm", y="1cm", reuse=None):
 
     def length(k):
         return f"{round(k * per_quarter_inch, 3):g}{u}"
-    exp.images.append({"sha": im["sha"], "ctype": im["ctype"], "w": 24 * kw, "h": 24 * kh, "unit": unit})
+    if not missing:       # a frame whose picture part is absent cannot yield an image; the others are numbered 1..n
+        exp.images.append({"sha": im["sha"], "ctype": im["ctype"], "w": 24 * kw, "h": 24 * kh, "unit": unit})
     return (f'<draw:frame draw:name="Image{idx}" svg:x="{x}" svg:y="{y}" svg:width="{length(kw)}" svg:height="{length(kh)}"><draw:image xlink:href="{name}" xlink:type="simple"/></draw:frame>', im)
 
 
@@ -622,7 +625,13 @@ def build_ods(seed: int, feature: str | None = None, twin: bool = False):
             trs.append(tr)
             grid.append(grow)
         shapes = ""
-        if rng.random() < 0.3:
+        if is_f and feature == "missing-picture-part":
+            fxs = []
+            for k3 in range(3):
+                n_img += 1
+                fxs.append(_frame_image(rng, files, exp, n_img, s + 1, y=f"{1 + 3 * k3}cm", missing=(k3 == 1 and not twin))[0])
+            shapes = f"<table:shapes>{''.join(fxs)}</table:shapes>"
+        elif rng.random() < 0.3:
             n_img += 1
             fx, _ = _frame_image(rng, files, exp, n_img, s + 1)
             shapes = f"<table:shapes>{fx}</table:shapes>"
